@@ -250,6 +250,7 @@ class RDFLibGraphsAdapter(RDFLibQuadsBaseAdapter):
 
     @override
     def triple(self, terms: Iterable[Any]) -> Quad:
+        self.graph  # noqa: B018  raises if the triple is not inside a graph
         return Quad(*chain(terms, [self._graph_id]))
 
     @override
